@@ -30,8 +30,10 @@ EXTENDS Integers, Sequences, FiniteSets
 CONSTANTS YLen(_),        \* days of calendar year y
           TrueYear(_),    \* the calendar: year of day number z
           TrueDoy(_),     \*               day of year of day number z
-          StrictWeather   \* TRUE: a year the weather input does not cover ends the run (what C04 demands);
+          StrictWeather,  \* TRUE: a year the weather input does not cover ends the run (what C04 demands);
                           \* FALSE: the load error is dropped and the arrays of the previous year stay (code, H5)
+          SkipPlaceholder \* TRUE: the placeholder entry the reader appends after the last crop can be "skipped" like a
+                          \* rotation entry (the code before fix H19); FALSE: only entries of the rotation file
 VARIABLES ph,     \* position in the day loop (the probe that fires next)
           proj,   \* the project (immutable after Init)
           cal,    \* [zeit, tag, yr, jtag, jz]: day number, day of year, year, length of the loaded year, year counter
@@ -189,7 +191,9 @@ Harvest == stp.sub = 1 /\ Zeit = At0(rot.ernte, Akf)
 \* after the harvest day (and organic fertiliser is due at harvest: abstracted into the parameter), the next entry
 \* is passed over: the rotation moves on twice, the crop record of the day is the record of the skipped entry (the
 \* record of the harvested crop is overwritten: one record for two entries), a tillage date is set for tomorrow
-SkipPossible == Harvest /\ proj.autoMan /\ Akf >= 1 /\ At0(proj.orgH, Akf) = 1 /\ At0(rot.saat2, Akf + 1) <= Zeit
+RealEntry(a) == At0(rot.ernte, a) > 0 \/ At0(rot.ernte2, a) > 0
+SkipPossible == /\ Harvest /\ proj.autoMan /\ Akf >= 1 /\ At0(proj.orgH, Akf) = 1 /\ At0(rot.saat2, Akf + 1) <= Zeit
+                /\ (SkipPlaceholder \/ RealEntry(Akf + 1))
 NitroMove(skip) ==
    /\ ph = "move"
    /\ skip => SkipPossible
